@@ -1,6 +1,227 @@
-//! Executor for the flavour binaries (filled in with C11/C16).
+//! Executor for the flavour binaries (`nbexec`) and for in-process comparison: runs a
+//! cross-section of value-level operations on a `Case` and renders every outcome as text.
+//! The same source is compiled against num-bigint with and without `std` (and with/without the
+//! optional features), so the rendered text can be compared byte for byte across configurations.
+
 use crate::Case;
+use num_bigint::{BigInt, BigUint, Sign};
+use num_integer::{Integer, Roots};
+use num_traits::{FromPrimitive, Num, Pow, ToPrimitive};
+use std::fmt::Write;
+
+fn bu(d: &[u64]) -> BigUint {
+    let mut v = Vec::with_capacity(d.len() * 2);
+    for &x in d {
+        v.push(x as u32);
+        v.push((x >> 32) as u32);
+    }
+    BigUint::new(v)
+}
+fn bi(neg: bool, d: &[u64]) -> BigInt {
+    BigInt::from_biguint(if neg { Sign::Minus } else { Sign::Plus }, bu(d))
+}
+
+fn guard<T>(f: impl FnOnce() -> T) -> Result<T, ()> {
+    std::panic::catch_unwind(std::panic::AssertUnwindSafe(f)).map_err(|_| ())
+}
+
+fn put(out: &mut String, key: &str, f: impl FnOnce() -> String) {
+    let _ = match guard(f) {
+        Ok(s) => write!(out, "{}={};", key, s),
+        Err(()) => write!(out, "{}=PANIC;", key),
+    };
+}
+
+fn hx(x: &BigInt) -> String {
+    // rendering through the digit export, not through the radix code under test
+    let (s, d) = x.to_u64_digits();
+    let mut o = String::new();
+    if s == Sign::Minus {
+        o.push('-');
+    }
+    if d.is_empty() {
+        o.push('0');
+    }
+    for (i, w) in d.iter().rev().enumerate() {
+        if i == 0 {
+            let _ = write!(o, "{:x}", w);
+        } else {
+            let _ = write!(o, "{:016x}", w);
+        }
+    }
+    o
+}
+fn hxu(x: &BigUint) -> String {
+    hx(&BigInt::from(x.clone()))
+}
+
+pub fn install_quiet_hook() {
+    std::panic::set_hook(Box::new(|_| {}));
+}
 
 pub fn exec(case: &Case) -> String {
-    format!("unsupported {}", case.op)
+    let mut o = String::new();
+    match case.op.as_str() {
+        "xs.arith" => {
+            let (sa, a) = case.z(0);
+            let (sb, b) = case.z(1);
+            let (x, y) = (bi(sa, a), bi(sb, b));
+            put(&mut o, "add", || hx(&(&x + &y)));
+            put(&mut o, "sub", || hx(&(&x - &y)));
+            put(&mut o, "mul", || hx(&(&x * &y)));
+            put(&mut o, "div", || hx(&(&x / &y)));
+            put(&mut o, "rem", || hx(&(&x % &y)));
+            put(&mut o, "divfloor", || { let (q, r) = x.div_mod_floor(&y); format!("{},{}", hx(&q), hx(&r)) });
+            put(&mut o, "gcd", || hx(&x.gcd(&y)));
+            put(&mut o, "lcm", || hx(&x.lcm(&y)));
+            put(&mut o, "and", || hx(&(&x & &y)));
+            put(&mut o, "or", || hx(&(&x | &y)));
+            put(&mut o, "xor", || hx(&(&x ^ &y)));
+            put(&mut o, "usub", || hxu(&(x.magnitude() - y.magnitude())));
+            put(&mut o, "cmp", || format!("{:?}", x.cmp(&y)));
+        }
+        "xs.radix" => {
+            let (sa, a) = case.z(0);
+            let r = case.u(1) as u32;
+            let r2 = case.u(2) as u32;
+            let x = bi(sa, a);
+            put(&mut o, "str", || x.to_str_radix(r));
+            put(&mut o, "parse", || {
+                let s = x.to_str_radix(r);
+                match BigInt::from_str_radix(&s, r) {
+                    Ok(v) => hx(&v),
+                    Err(_) => "ERR".into(),
+                }
+            });
+            put(&mut o, "radix_le", || format!("{:?}", x.magnitude().to_radix_le(r2)));
+            put(&mut o, "radix_be", || format!("{:?}", x.to_radix_be(r2)));
+            put(&mut o, "from_radix_le", || {
+                let d = x.magnitude().to_radix_le(r2);
+                match BigUint::from_radix_le(&d, r2) {
+                    Some(v) => hxu(&v),
+                    None => "NONE".into(),
+                }
+            });
+            put(&mut o, "dec", || format!("{}", x));
+        }
+        "xs.parse" => {
+            let s = case.s(0);
+            let r = case.u(1) as u32;
+            put(&mut o, "int", || match BigInt::from_str_radix(s, r) {
+                Ok(v) => hx(&v),
+                Err(_) => "ERR".into(),
+            });
+            put(&mut o, "uint", || match BigUint::from_str_radix(s, r) {
+                Ok(v) => hxu(&v),
+                Err(_) => "ERR".into(),
+            });
+            put(&mut o, "bytes", || match BigInt::parse_bytes(s.as_bytes(), r) {
+                Some(v) => hx(&v),
+                None => "NONE".into(),
+            });
+        }
+        "xs.root" => {
+            let (sa, a) = case.z(0);
+            let n = case.u(1) as u32;
+            let x = bi(sa, a);
+            put(&mut o, "sqrt", || hx(&x.sqrt()));
+            put(&mut o, "cbrt", || hx(&x.cbrt()));
+            put(&mut o, "nth", || hx(&x.nth_root(n)));
+            put(&mut o, "usqrt", || hxu(&x.magnitude().sqrt()));
+            put(&mut o, "ucbrt", || hxu(&x.magnitude().cbrt()));
+            put(&mut o, "unth", || hxu(&x.magnitude().nth_root(n)));
+        }
+        "xs.float" => {
+            let (sa, a) = case.z(0);
+            let x = bi(sa, a);
+            put(&mut o, "f64", || format!("{:?}", x.to_f64().map(f64::to_bits)));
+            put(&mut o, "f32", || format!("{:?}", x.to_f32().map(f32::to_bits)));
+            put(&mut o, "uf64", || format!("{:?}", x.magnitude().to_f64().map(f64::to_bits)));
+            put(&mut o, "from", || match x.to_f64().and_then(BigInt::from_f64) {
+                Some(v) => hx(&v),
+                None => "NONE".into(),
+            });
+        }
+        "xs.fromf" => {
+            let bits = case.u(0) as u64;
+            let f = f64::from_bits(bits);
+            put(&mut o, "i", || match BigInt::from_f64(f) {
+                Some(v) => hx(&v),
+                None => "NONE".into(),
+            });
+            put(&mut o, "u", || match BigUint::from_f64(f) {
+                Some(v) => hxu(&v),
+                None => "NONE".into(),
+            });
+            put(&mut o, "f32", || match BigInt::from_f32(f32::from_bits(bits as u32)) {
+                Some(v) => hx(&v),
+                None => "NONE".into(),
+            });
+        }
+        "xs.shift" => {
+            let (sa, a) = case.z(0);
+            let k = case.u(1) as u64;
+            let x = bi(sa, a);
+            put(&mut o, "shl", || hx(&(&x << (k % 4096))));
+            put(&mut o, "shr", || hx(&(&x >> k)));
+            put(&mut o, "pow", || hx(&Pow::pow(&x, (k % 9) as u32)));
+            put(&mut o, "bits", || format!("{}", x.bits()));
+            put(&mut o, "tz", || format!("{:?}", x.trailing_zeros()));
+            put(&mut o, "bit", || format!("{}", x.bit(k)));
+            put(&mut o, "sbytes", || format!("{:?}", x.to_signed_bytes_le()));
+            put(&mut o, "not", || hx(&!&x));
+        }
+        "xs.fmt" => {
+            let (sa, a) = case.z(0);
+            let w = (case.u(1) % 48) as usize;
+            let x = bi(sa, a);
+            let u = x.magnitude().clone();
+            put(&mut o, "d", || format!("{}|{:+}|{:>w$}|{:<w$}|{:^w$}|{:0w$}|{:+0w$}", x, x, x, x, x, x, x, w = w));
+            put(&mut o, "x", || format!("{:x}|{:#x}|{:#0w$x}|{:*>w$x}|{:X}|{:#X}", x, x, x, x, x, x, w = w));
+            put(&mut o, "o", || format!("{:o}|{:#o}|{:#0w$o}", x, x, x, w = w));
+            put(&mut o, "b", || format!("{:b}|{:#b}|{:#0w$b}", x, x, x, w = w));
+            put(&mut o, "ud", || format!("{}|{:+}|{:0w$}|{:x}|{:#X}|{:o}|{:#b}", u, u, u, u, u, u, u, w = w));
+            put(&mut o, "dbg", || format!("{:?}|{:?}", x, u));
+        }
+        "xs.modpow" => {
+            let (sa, a) = case.z(0);
+            let e = case.n(1);
+            let (sm, m) = case.z(2);
+            let (x, y, z) = (bi(sa, a), bi(false, e), bi(sm, m));
+            put(&mut o, "modpow", || hx(&x.modpow(&y, &z)));
+            put(&mut o, "umodpow", || hxu(&x.magnitude().modpow(y.magnitude(), z.magnitude())));
+            put(&mut o, "modinv", || match x.modinv(&z) {
+                Some(v) => hx(&v),
+                None => "NONE".into(),
+            });
+        }
+        "xs.prim" => {
+            let (sa, a) = case.z(0);
+            let x = bi(sa, a);
+            put(&mut o, "i64", || format!("{:?}", x.to_i64()));
+            put(&mut o, "u64", || format!("{:?}", x.to_u64()));
+            put(&mut o, "i128", || format!("{:?}", x.to_i128()));
+            put(&mut o, "u128", || format!("{:?}", x.to_u128()));
+            put(&mut o, "i8", || format!("{:?}", x.to_i8()));
+            put(&mut o, "u32", || format!("{:?}", x.to_u32()));
+            put(&mut o, "bytes", || format!("{:?}", x.to_bytes_be()));
+            put(&mut o, "u32d", || format!("{:?}", x.to_u32_digits()));
+        }
+        other => {
+            let _ = write!(o, "unsupported {}", other);
+        }
+    }
+    o
+}
+
+/// extract `key=value;` from an exec outcome
+pub fn field<'a>(outcome: &'a str, key: &str) -> Option<&'a str> {
+    for part in outcome.split(';') {
+        if let Some(rest) = part.strip_prefix(key) {
+            if let Some(v) = rest.strip_prefix('=') {
+                return Some(v);
+            }
+        }
+    }
+    None
 }
